@@ -21,15 +21,27 @@ import (
 
 type emitter struct {
 	w     *bufio.Writer
+	hangs int // cases that hit the watchdog; after maxHangs the run stops generating
 	n     int
 	dist  map[string]int
 	limit time.Time
 }
 
+const maxHangs = 3
+
 func (e *emitter) line(kind string, args string, result string) {
+	if e.hangs >= maxHangs {
+		return // a hung case leaves a spinning goroutine behind; enough evidence, stop here
+	}
+	if result == "hang" || result == "!!hang" {
+		e.hangs++
+	}
 	fmt.Fprintf(e.w, "%s %s => %s\n", kind, args, result)
 	e.n++
 }
+
+// exhausted reports that the hang budget is used up (generators may stop early).
+func (e *emitter) exhausted() bool { return e.hangs >= maxHangs }
 func (e *emitter) count(key string) { e.dist[key]++ }
 
 // guarded runs f under recover and a watchdog; a panic is returned as "panic:<msg>", a hang as "hang".
